@@ -133,6 +133,45 @@ func dctContent(a dctCase) []int {
 	if a.Kind == "skew" {
 		return skewedACImage(a)
 	}
+	if a.Kind == "quiet" {
+		// low-amplitude noise (about a hundred distinct, frequent AC symbols at a unit quantiser) with one block holding a
+		// single full-amplitude basis function: a very rare symbol of the largest category, which gets one of the longest
+		// codes; K varies the noise, the block, the basis function and the amount of data before it (bit alignment)
+		mid, max := 128, 255
+		if a.Codec == 2 {
+			mid, max = 2048, 4095
+		}
+		l := eng.NewLCG(a.K*7 + 1)
+		s := make([]int, a.W*a.H)
+		for i := range s {
+			s[i] = mid + int(l.Next()>>5)%5 - 2
+		}
+		bx, by := (a.K*5)%(a.W/8), (a.K*3+1)%(a.H/8)
+		nat := zigzagNat[1+a.K%9]
+		u, v := nat%8, nat/8
+		cu, cv := 1.0, 1.0
+		if u == 0 {
+			cu = 1 / math.Sqrt2
+		}
+		if v == 0 {
+			cv = 1 / math.Sqrt2
+		}
+		amp := float64(mid) * 0.97
+		for y := 0; y < 8; y++ {
+			for x := 0; x < 8; x++ {
+				p := float64(mid) + amp*math.Cos(float64(2*x+1)*float64(u)*math.Pi/16)*math.Cos(float64(2*y+1)*float64(v)*math.Pi/16)/(cu*cv)*cu*cv
+				pv := int(math.Round(p))
+				if pv < 0 {
+					pv = 0
+				}
+				if pv > max {
+					pv = max
+				}
+				s[(by*8+y)*a.W+bx*8+x] = pv
+			}
+		}
+		return s
+	}
 	max := 255
 	if a.Codec == 2 {
 		max = 4095
@@ -375,6 +414,19 @@ func dctEnumerate(c *eng.Ctx, sub string, codecs []int, run func(dctCase, *eng.C
 					for k := 101; k <= 104; k++ {
 						jobs = append(jobs, dctCase{Codec: cd, W: 712, H: 608, C: 1, Q: q + 5*(k-100), Kind: "skew", K: k})
 					}
+					// unit quantiser: the largest magnitude categories (10 for 8-bit samples) on the rarest symbols
+					for k := 105; k <= 112; k++ {
+						jobs = append(jobs, dctCase{Codec: cd, W: 712, H: 608, C: 1, Q: 100 - (q-50)/25, Kind: "skew", K: k})
+					}
+				}
+			}
+			if nc == 1 {
+				nq := 192
+				if cd != 0 {
+					nq = 48
+				}
+				for k := 0; k < nq; k++ {
+					jobs = append(jobs, dctCase{Codec: cd, W: 256, H: 256, C: 1, Q: 100, Kind: "quiet", K: k})
 				}
 			}
 			big := [][2]int{{64, 64}, {100, 37}, {256, 3}}
@@ -414,7 +466,7 @@ func dctEnumerate(c *eng.Ctx, sub string, codecs []int, run func(dctCase, *eng.C
 			}
 			return
 		}
-		if j.Kind == "skew" {
+		if j.Kind == "skew" || j.Kind == "quiet" {
 			c.Eval(1)
 			if f := eng.Guard(func() *eng.Fail { return run(j, c) }); f != nil {
 				eng.Recheck(c, sub, j, reg)
@@ -433,7 +485,7 @@ func dctEnumerate(c *eng.Ctx, sub string, codecs []int, run func(dctCase, *eng.C
 	if !done {
 		c.Capped("size x quality product cut by deadline")
 	}
-	c.Subspace("sizes-x-quality", c.Evals()-before, done, "every (w,h) in 1..33^2 x quality {1,25,50,75,90,100}, every quality 1..100 at {1x1,7x9,8x8,16x16,17x33}, x 11 content families; every image of <= 4 samples over {0,mid,MAX}; larger sizes with 3 qualities; 712x608 images whose AC symbol histogram is Fibonacci over 18 symbols (optimised Huffman table at its 16-bit length limit)")
+	c.Subspace("sizes-x-quality", c.Evals()-before, done, "every (w,h) in 1..33^2 x quality {1,25,50,75,90,100}, every quality 1..100 at {1x1,7x9,8x8,16x16,17x33}, x 11 content families; every image of <= 4 samples over {0,mid,MAX}; larger sizes with 3 qualities; 712x608 images whose AC symbol histogram is Fibonacci over 18 symbols (optimised Huffman table at its 16-bit length limit); 256x256 quiet-noise images at quality 100 with one full-amplitude block (a very rare symbol of the largest category), 192 variations of noise, block, basis function and alignment")
 }
 
 // idctCase: coefficient block with one or two non-zero entries (natural order), unit quantisation table.
